@@ -522,6 +522,15 @@ void var_opt_union<T, A>::mark_moving_gadget_coercer(var_opt_sketch<T, A>& sk) c
   uint32_t result_r = 0;
   size_t next_r_pos = result_k; // = (result_k+1)-1, to fill R region from back to front
 
+  // check the bookkeeping before allocating, so that throwing does not leak the new arrays
+  double marked_weight = 0;
+  for (size_t idx = 0; idx < gadget_.h_; ++idx) {
+    if (gadget_.marks_[idx]) marked_weight += gadget_.weights_[idx];
+  }
+  if (std::abs(marked_weight - outer_tau_numer_) > 1e-10 * std::max(1.0, outer_tau_numer_)) { // relative: the sum is accumulated in floating point
+    throw std::logic_error("unexpected mismatch in transferred weight");
+  }
+
   double* wts = AllocDouble(allocator_).allocate(result_k + 1);
   T* data     = A(allocator_).allocate(result_k + 1);
     
@@ -556,9 +565,6 @@ void var_opt_union<T, A>::mark_moving_gadget_coercer(var_opt_sketch<T, A>& sk) c
   }
 
   if (result_h + result_r != result_k) throw std::logic_error("H + R counts must equal k");
-  if (std::abs(transferred_weight - outer_tau_numer_) > 1e-10 * std::max(1.0, outer_tau_numer_)) { // relative: the sum is accumulated in floating point
-    throw std::logic_error("unexpected mismatch in transferred weight");
-  }
 
   const double result_r_weight = gadget_.total_wt_r_ + transferred_weight;
   const uint64_t result_n = n_;
